@@ -61,6 +61,9 @@ type SOp struct {
 	Op    string `json:"op"`
 	N     int    `json:"n,omitempty"`
 	Ns    int64  `json:"ns,omitempty"`
+	// sleep: streams after the first FirstK of their connection sleep Ns2 instead
+	FirstK int   `json:"first_k,omitempty"`
+	Ns2    int64 `json:"ns2,omitempty"`
 	Code  int    `json:"code,omitempty"`
 	Msg   string `json:"msg,omitempty"`
 	Split []int  `json:"split,omitempty"` // DATA payload sizes, cycled (empty: as large as allowed)
@@ -946,7 +949,11 @@ func (pc *peerConn) runScript(ps *peerStream, script []SOp) {
 			pc.put(outItem{kind: 'R', sid: ps.id, code: http2.ErrCode(op.Code)})
 			pc.w.noteReturned(ps, -1-op.Code)
 		case "sleep":
-			if !pc.sleep(time.Duration(op.Ns)) {
+			d := op.Ns
+			if op.FirstK > 0 && ps.id > uint32(2*op.FirstK-1) {
+				d = op.Ns2 // not among the first K streams of this connection
+			}
+			if !pc.sleep(time.Duration(d)) {
 				return
 			}
 		case "recv":
